@@ -414,6 +414,50 @@ func runC16(c *Ctx, r *Report, tier string) {
 		}
 		r.Check(len(extra) == 0, "ATTR", wn, "choices do not depend on a value name", c.ipos(in), "the `[a|b]` part is written under its own test only", "the choice list is written only under "+strings.Join(extra, "; "))
 	}
+	// every described positional argument is listed: the loops over the command's arguments visit all of them
+	if wh := c.mustFn(r, "(*Parser).WriteHelp"); wh != nil {
+		nL := 0
+		for _, fn := range c.Funcs {
+			if !c.actsFor(fn, wh) {
+				continue
+			}
+			for _, l := range c.loopsDeep(fn) {
+				reads := false
+				for b := range l.Blocks {
+					for _, in := range b.Instrs {
+						if u, ok := in.(*ssa.UnOp); ok && strings.HasPrefix(c.term(u), "Arg.Description(") {
+							reads = true
+						}
+					}
+				}
+				if !reads || l.Header.Parent() != fn {
+					continue
+				}
+				nL++
+				var early []string
+				for _, e := range l.exits() {
+					if e.B != l.Header {
+						early = append(early, c.ipos(e.B.Instrs[len(e.B.Instrs)-1]))
+					}
+				}
+				r.Check(len(early) == 0, "ATTR", c.fname(fn), "every positional argument is considered for the help", c.ipos(l.Header.Instrs[0]), "the loop over the arguments exits only at its header", "the loop is left early at "+strings.Join(early, ", ")+": described arguments after that one are not listed")
+			}
+		}
+		r.Check(nL >= 1, "ATTR", c.fname(wh), "argument loops found", c.pos(wh.Pos()), "≥ 1", fmt.Sprintf("%d", nL))
+	}
+	// formatForMan writes all of its text: every return has passed a write of the quoted rest (not only of a prefix)
+	if ffm := c.mustFn(r, "formatForMan"); ffm != nil {
+		rest := func(in ssa.Instruction) bool {
+			ci, ok := in.(ssa.CallInstruction)
+			if !ok || ci.Common().StaticCallee() != nil || ci.Common().IsInvoke() || len(ci.Common().Args) != 1 {
+				return false
+			}
+			return c.term(ci.Common().Value) == "P2" && !strings.HasPrefix(c.term(ci.Common().Args[0]), "before(")
+		}
+		for _, ret := range returnsOf(ffm) {
+			c.mptRule(r, "ATTR", ffm, ret, "man text: the rest after the last quote pair is written", rest, "quoter(rest of the text)", nil)
+		}
+	}
 	// ---- MASK
 	maskEmpty := func(t string) LitMatch {
 		return func(l Lit) bool { return !l.Pos && strings.HasPrefix(l.Term, "nonempty(Option.DefaultMask("+t) }
